@@ -372,7 +372,9 @@ def run_vcf(spec, rec, dadi):
         # bootstraps over subsampled individuals: the requested numbers are looked up by population name (the dictionary may list
         # the populations in any order), every SNP is counted at exactly 2*subsample[pop] chromosomes, so each bootstrap has those
         # sample sizes and whole-number entries (halves where folding shares an ambiguous class)
-        if ok and syn.npop >= 2 and ci % 2 == 0:
+        # (only when at least one SNP survives the subsampling: a data set without a single usable SNP has no spectrum to bootstrap,
+        # and what the library does with it -- it raises from an empty reduce -- is not part of the property)
+        if ok and syn.npop >= 2 and ci % 2 == 0 and len(dds) > 0:
             sub_rev = {p: sub[p] for p in reversed(syn.pops)}
             csz = int(rng.choice([50, 500, 10 ** 7]))
             # (the two boolean options differ, in either direction by turns: each must reach what it names)
